@@ -10,6 +10,8 @@
    X <k> near|far           redirect thunk k to a real stub (near: published next to the thunk,
                             far: mmap'ed more than 2 GiB away) and CALL the thunk
         -> X thunk=<hex> to=<hex> bytes=<26 hex> get=<hex> reached=<hex>
+   B <bbv hex> <dec1> <dec2> bb thunk with handler at thunk+15+<dec1>, then replaced by a jump to thunk+5+<dec2>
+        -> B thunk=<hex> bbv=<hex> handler=<hex> bytes=<30 hex> to=<hex> bytes2=<30 hex>
    H <n> | <callees> | <op> ; <op> ; ...
         n functions f0..f(n-1), each in its own module; <callees> = "0:1,2 1:2" (f0 calls f1,f2 ...)
         ops: load <f> | link <iface> | set <iface> <f> | gen <f> | call <f> <arg>
@@ -138,6 +140,33 @@ static void do_X (char *line) {
   hexbytes (thunks[k], 13);
   printf (" get=%" PRIx64 " reached=%" PRIx64 "\n", (uint64_t) _MIR_get_thunk_addr (ctx, thunks[k]),
           reached);
+}
+
+/* B <bbv hex> <signed dec 1> <signed dec 2>: a bb thunk (_MIR_get_bb_thunk) whose handler is at
+   thunk+15+<dec 1>, then _MIR_replace_bb_thunk to thunk+5+<dec 2>; nothing is executed.
+     -> B thunk=<hex> bbv=<hex> handler=<hex> bytes=<30 hex> to=<hex> bytes2=<30 hex> */
+static void do_B (char *line) {
+  char bv[64], d1[64], d2[64];
+  if (sscanf (line, "B %63s %63s %63s", bv, d1, d2) != 3) {
+    printf ("BAD\n");
+    return;
+  }
+  uint8_t filler[40] = {0xc3};
+  _MIR_publish_code (ctx, filler, 1 + (int) (strtoull (bv, NULL, 16) % 13));
+  uint64_t pred = (uint64_t) _MIR_get_new_code_addr (ctx, 15);
+  uint64_t bbv = strtoull (bv, NULL, 16), handler = pred + 15 + (uint64_t) strtoll (d1, NULL, 10);
+  uint8_t *res = _MIR_get_bb_thunk (ctx, (void *) bbv, (void *) handler);
+  if ((uint64_t) res != pred) {
+    printf ("B unpredicted\n");
+    return;
+  }
+  printf ("B thunk=%" PRIx64 " bbv=%" PRIx64 " handler=%" PRIx64 " bytes=", (uint64_t) res, bbv, handler);
+  hexbytes (res, 15);
+  uint64_t to = (uint64_t) res + 5 + (uint64_t) strtoll (d2, NULL, 10);
+  _MIR_replace_bb_thunk (ctx, res, (void *) to);
+  printf (" to=%" PRIx64 " bytes2=", to);
+  hexbytes (res, 15);
+  printf ("\n");
 }
 
 /* ------------------------------------------------------------------ H */
@@ -336,6 +365,8 @@ int main (void) {
         do_R (line);
       else if (line[0] == 'X')
         do_X (line);
+      else if (line[0] == 'B')
+        do_B (line);
       else if (line[0] == 'H')
         do_H (line);
       else
